@@ -328,6 +328,16 @@ def check_exports(ctx, su, sv, s, scale=1.0):
                     cf += len(r.faces)
                 vids = [v.id for v in c.vertices]
                 fids = [f.id for f in c.faces]
+                # ... and again: forced, and after the same sampling has been assigned once more (no stacking, no second offset)
+                for label, redo in (("force", lambda: c.tessellate(vertex_spacing=s, force=True)),
+                                    ("same_sampling_again", lambda: (setattr(c, "delta", c.delta), c.tessellate(vertex_spacing=s)))):
+                    redo()
+                    v2 = [v.id for v in c.vertices]
+                    okf = all(all(0 <= i < len(c.vertices) for i in f.vertex_ids) for f in c.faces)
+                    if v2 != list(range(len(cv))) or len(c.faces) != cf or [f.id for f in c.faces] != list(range(cf)) or not okf or \
+                            not close_seq([list(v.data) for v in c.vertices], cv, 1e-12):
+                        ctx.violate("multi.SurfaceContainer.tessellate", t2 + ["again", label], small, {"n_vertices": len(v2), "expected": len(cv), "n_faces": len(c.faces)})
+                        break
                 if vids != list(range(len(cv))) or not close_seq([list(v.data) for v in c.vertices], cv, 1e-12) or len(c.faces) != cf or fids != list(range(cf)):
                     ctx.violate("multi.SurfaceContainer.tessellate", t2, small, {"vertex_ids": vids[:8], "n_faces": len(c.faces), "expected_faces": cf})
         except Exception as e:
